@@ -268,6 +268,8 @@ type seqHooks struct {
 	observe func(step []string, before *model.DB, exp model.Exp, st *kit.Stats, flags map[string]int)
 	// noDump disables the per-step dump comparison (still done at the end).
 	noDump bool
+	// after runs after each compared step (extra invariants read through the wire).
+	after func(conn *kit.Conn, db *model.DB, flags map[string]int, st *kit.Stats) error
 }
 
 // runSeq executes the case on a fresh emulator and on the model, comparing every reply and the
@@ -321,6 +323,11 @@ func runSeq(c SeqCase, st *kit.Stats, h seqHooks, flags map[string]int) error {
 				return fmt.Errorf("after step %d %s: state dump failed: %v", i, step, err)
 			}
 			if err := compareDump(d, db, model.Time{Lo: t0, Hi: t1}); err != nil {
+				return fmt.Errorf("after step %d %s (reply %s): %v", i, step, got, err)
+			}
+		}
+		if h.after != nil {
+			if err := h.after(conn, db, flags, st); err != nil {
 				return fmt.Errorf("after step %d %s (reply %s): %v", i, step, got, err)
 			}
 		}
